@@ -166,6 +166,7 @@ func c13GoLabel(name string, kinds int) (any, specLabel) {
 		return l, specLabel{isInt: true, i: iv, bad: big}
 	case k == 10:
 		s := vStr(name+".ls", 2)
+		vAssume(vUTF8(s)) // Go strings handed to the library are text
 		return s, specLabel{s: s}
 	}
 	return vBool(name + ".lb"), specLabel{bad: true}
@@ -198,6 +199,7 @@ func c13GoValue(name string, full bool) (any, specEntry) {
 		return v, specEntry{kind: skNint}
 	case 2:
 		s := vStr(name+".vs", 4)
+		vAssume(vUTF8(s))
 		return s, specEntry{kind: skTstr, str: s}
 	case 3:
 		return nil, specEntry{kind: skNil}
